@@ -186,6 +186,9 @@ impl Prop for C10 {
     fn id(&self) -> &'static str {
         "C10"
     }
+    fn canary(&self) -> bool {
+        true
+    }
     fn rule(&self) -> String {
         "cases = histories of 0-60 operations over PREPARE (shim replies with an id from the pool {1, 2, 3, 0, u32::MAX, 77} and 0-3 declared parameters, or rejects), EXECUTE{id}, SEND_LONG_DATA{id, param, bytes}, CLOSE{id} (live, closed, or never-prepared ids), PING; generated as a valid prefix, optionally one operation on a never-prepared / rejected / closed id, then a tail of valid-looking commands; one enumerated history keeps 17 000 (thorough: 70 000) statements open at once and then uses early, boundary and late ids. One execution in six is answered by the shim with an error (1243, 1213, 1205, 1064, ...): the statement stays usable, only the client's CLOSE ends it. Oracle: reference model live: id -> declared parameter count. Valid histories: the callback log equals the model's, executions show the latest declared parameter count, long data sent before a re-prepare or a close is not visible afterwards. First invalid operation: no callback for it or for anything after it, run_on returns Err. Every CLOSE (also of unknown ids) reaches on_close exactly once and adds zero reply bytes. Non-trivial = close->execute, failed-prepare->execute, or a re-prepare of a live id.".into()
     }
